@@ -456,6 +456,9 @@ def script_for(path, xid, sc, info, creds, rnd, msgsz):
                     nm = rnd.choice(names)
                 else:
                     nm = rnd.choice(invent_names(names, rnd))
+                if keyed and rnd.random() < 0.4:
+                    # names that extend the private key's: no such attribute, and certainly no key in the reply
+                    nm = rnd.choice(["tls.key.x", "tls.key[0]", "tls.key.pem.data", "tls.key[1][2].a", "tls.key.x.y", "tls.key[0].x"])
                 nm = nm[:63]
             if s in libs:
                 if k == "all":
